@@ -53,6 +53,29 @@ class BaseBM:
         raise I.PyExc('AttributeError', name, lineno)
 
 
+CAST = z3.Function('cast_to_dtype', z3.RealSort(), z3.RealSort())
+
+
+class TimeTensor(SV):
+    """A 0-d time tensor held in a higher precision than the Brownian motion (e.g. float64 `ts` with a float32 motion): arithmetic is
+    that of the value; converting it to another dtype / device (`.to(...)`) rounds it -- an uninterpreted function of the value."""
+    __slots__ = ()
+    is_time_tensor = True
+
+    def __pyvc_getattr__(self, engine, name, cx, lineno):
+        if name == 'to':
+            def to(*a, **k):
+                if k.get('dtype', 'float64') != 'float64' or (a and a[0] != 'float64'):
+                    return TimeTensor(CAST(self.e))
+                return self
+            return I.ExternFunc('Tensor.to', to)
+        if name == 'dtype':
+            return 'float64'
+        if name == 'device':
+            return 'device'
+        raise Unsupported(f'TimeTensor.{name}')
+
+
 def install_inplace_guard(E):
     """In-place updates (`x += ...`) of a borrowed tensor violate the frame of the wrapper (they would write into the
     wrapped object's stored increments)."""
